@@ -111,6 +111,7 @@ class Rec:
             self.dev[(fid, int(k))] = alt
         self.counts = {}
         self.calls = []  # user-space log
+        self.points = []  # every choice point in order (user calls + scripted back-end answers of engine E3)
         self.pcalls = []  # Problem.__call__ log
         self.open_pcall = None
         self.phase = "pre"
@@ -160,6 +161,7 @@ def _log_call(rec, fid, k, x, val, alt):
         "xshape": tuple(np.shape(x)),
     }
     rec.calls.append(ent)
+    rec.points.append(ent)
     if rec.hook is not None:
         rec.hook(rec, "user", ent)
     return ent
@@ -684,6 +686,10 @@ def run(case, timeout=60.0, hook=None):
     rec.kwargs = kwargs
     buf = io.StringIO()
     CUR = rec
+    restore = None
+    if case.get("stub"):
+        from . import e3
+        restore = e3.install(rec)
     try:
         with warnings.catch_warnings(record=True) as wlist:
             warnings.simplefilter("always")
@@ -707,6 +713,8 @@ def run(case, timeout=60.0, hook=None):
         rec.warnings = [(w.category.__name__, str(w.message)[:200]) for w in wlist]
     finally:
         CUR = None
+        if restore is not None:
+            restore()
     rec.stdout = buf.getvalue()
     for key in rec.dev:
         if key not in rec.used_dev:
